@@ -114,8 +114,10 @@ fn frame_bytes(cmd: u8, sid: u32, data: &[u8]) -> Vec<u8> {
 /// burst reveals which line shaped it
 fn index_scheme() -> Arc<PaddingFactory> {
     let mut s = String::from("stop=200\n");
+    // after the first record two more sizes follow: when the payload is used up they become padding-only records
+    // (67 bytes each), so that transport faults can also land inside those
     for k in 0..200 {
-        s.push_str(&format!("{}={}-{}\n", k, 1000 + k, 1000 + k));
+        s.push_str(&format!("{}={}-{},60-60,60-60\n", k, 1000 + k, 1000 + k));
     }
     Arc::new(PaddingFactory::new(s.as_bytes()).unwrap())
 }
